@@ -52,6 +52,18 @@ def generate(rng, tier):
             cases.append(Case(lines, ["months", "mode:" + md, "rep:" + p[0]], md=md, p=p, k=k, fam="M"))
         elif fam == "Y":
             k = rng.choice(NS + [rng.randint(-30, 30) or 1])
+            if rng.random() < 0.3:
+                # leap-rule boundary: land exactly on a century year (common unless a multiple of 400) or start from
+                # one, from the last day of the year / 29 February / the last week, with year counts incl. +-4, +-8
+                k = rng.choice([4, -4, 8, -8, 12, -12, 96, -96, 100, -100, 200, -200, 400, -400, 1, -1, 3, -3, 104, -104])
+                target = 100 * rng.randint(-30, 30)
+                y0 = target - k if rng.random() < 0.7 else target
+                yl = year_len(md, y0)
+                date = rng.choice(["O %d %d" % (y0, yl), "O %d %d" % (y0, yl), "O %d %d" % (y0, yl - 1),
+                                   "C %d 2 %d" % (y0, month_len(md, y0, 2)), "C %d 2 28" % y0,
+                                   "W %d %d 7" % (y0, rng.choice([52, 53])), "C %d 12 %d" % (y0, month_len(md, y0, 12))])
+                z = rand_zone(rng)
+                p = "%s %s %d %d" % (date, rand_tod(rng, decimals=False), z[0], z[1])
             cases.append(Case(["add %s %s DU %d 0 0 0 0 0" % (md, p, k)], ["years", "mode:" + md, "rep:" + p[0]],
                               md=md, p=p, k=k, fam="Y"))
         else:
